@@ -31,151 +31,154 @@ func TestC33(t *testing.T) {
 	}
 
 	emit := func(kind string, spec nodeSpec, sc *script) {
-		node := w.addNode(spec)
-		defer w.mgr.RemoveNode(w.ctx, node) //nolint
-		var live []*workload
-		id := 0
-		nAllocs := 1 + g.intn(4)
-		if sc != nil {
-			nAllocs = len(sc.allocs)
-		}
-		for i := 0; i < nAllocs; i++ {
-			var opts resourcetypes.RawParams
-			count := 1 + g.intn(2)
+		guarded(r, func() {
+			node := w.addNode(spec)
+			defer w.mgr.RemoveNode(w.ctx, node) //nolint
+			var live []*workload
+			id := 0
+			nAllocs := 1 + g.intn(4)
 			if sc != nil {
-				opts, count = sc.allocs[i], sc.counts[i]
-			} else if g.chance(0.75) {
-				cpu := cpuChoicesWhole[g.intn(len(cpuChoicesWhole))]
-				if g.chance(0.3) {
-					cpu = cpuChoicesFrac[g.intn(len(cpuChoicesFrac))]
+				nAllocs = len(sc.allocs)
+			}
+			for i := 0; i < nAllocs; i++ {
+				var opts resourcetypes.RawParams
+				count := 1 + g.intn(2)
+				if sc != nil {
+					opts, count = sc.allocs[i], sc.counts[i]
+				} else if g.chance(0.75) {
+					cpu := cpuChoicesWhole[g.intn(len(cpuChoicesWhole))]
+					if g.chance(0.3) {
+						cpu = cpuChoicesFrac[g.intn(len(cpuChoicesFrac))]
+					}
+					mem := int64(50 * g.intn(8))
+					opts = resourcetypes.RawParams{"cpu-bind": true, "cpu-request": cpu, "cpu-limit": cpu, "memory-request": mem, "memory-limit": mem}
+				} else {
+					opts, _ = g.allocOpts(false)
 				}
-				mem := int64(50 * g.intn(8))
-				opts = resourcetypes.RawParams{"cpu-bind": true, "cpu-request": cpu, "cpu-limit": cpu, "memory-request": mem, "memory-limit": mem}
+				ws, _, err := w.mgr.Alloc(w.ctx, node, count, resourcetypes.Resources{pluginName: opts})
+				if err != nil {
+					continue
+				}
+				for _, res := range ws {
+					id++
+					live = append(live, &workload{id: fmt.Sprintf("w%d", id), res: roundTrip(res)})
+				}
+			}
+			// pick a workload: bound ones preferred
+			bound := []int{}
+			for i, l := range live {
+				if len(parseWR(l.res[pluginName]).CPUMap) > 0 {
+					bound = append(bound, i)
+				}
+			}
+			if len(live) == 0 {
+				return
+			}
+			pick := g.intn(len(live))
+			if len(bound) > 0 && g.chance(0.9) {
+				pick = bound[g.intn(len(bound))]
+			}
+			if sc != nil {
+				pick = sc.pick
+			}
+			origin := parseWR(live[pick].res[pluginName])
+			// the request: mostly keep-bind with no cpu change and any memory delta
+			var opts resourcetypes.RawParams
+			reqKind := ""
+			if sc != nil {
+				opts, reqKind = sc.opts, "keep-samecpu"
+			} else if g.chance(0.8) {
+				mem := int64(0)
+				switch g.intn(4) {
+				case 1:
+					mem = -int64(50 * (1 + g.intn(3)))
+				case 2, 3:
+					mem = int64(50 * (1 + g.intn(10)))
+				}
+				opts = resourcetypes.RawParams{"keep-cpu-bind": true, "cpu-request": 0.0, "cpu-limit": 0.0, "memory-request": mem, "memory-limit": mem}
+				reqKind = "keep-samecpu"
 			} else {
-				opts, _ = g.allocOpts(false)
+				opts, reqKind = g.reallocOpts(false)
 			}
-			ws, _, err := w.mgr.Alloc(w.ctx, node, count, resourcetypes.Resources{pluginName: opts})
-			if err != nil {
-				continue
-			}
-			for _, res := range ws {
-				id++
-				live = append(live, &workload{id: fmt.Sprintf("w%d", id), res: roundTrip(res)})
-			}
-		}
-		// pick a workload: bound ones preferred
-		bound := []int{}
-		for i, l := range live {
-			if len(parseWR(l.res[pluginName]).CPUMap) > 0 {
-				bound = append(bound, i)
-			}
-		}
-		if len(live) == 0 {
-			return
-		}
-		pick := g.intn(len(live))
-		if len(bound) > 0 && g.chance(0.9) {
-			pick = bound[g.intn(len(bound))]
-		}
-		if sc != nil {
-			pick = sc.pick
-		}
-		origin := parseWR(live[pick].res[pluginName])
-		// the request: mostly keep-bind with no cpu change and any memory delta
-		var opts resourcetypes.RawParams
-		reqKind := ""
-		if sc != nil {
-			opts, reqKind = sc.opts, "keep-samecpu"
-		} else if g.chance(0.8) {
-			mem := int64(0)
-			switch g.intn(4) {
-			case 1:
-				mem = -int64(50 * (1 + g.intn(3)))
-			case 2, 3:
-				mem = int64(50 * (1 + g.intn(10)))
-			}
-			opts = resourcetypes.RawParams{"keep-cpu-bind": true, "cpu-request": 0.0, "cpu-limit": 0.0, "memory-request": mem, "memory-limit": mem}
-			reqKind = "keep-samecpu"
-		} else {
-			opts, reqKind = g.reallocOpts(false)
-		}
-		capacity, usage, _ := w.read(node, nil)
-		whole := true
-		for _, v := range capacity.CPUMap {
-			if v != base {
-				whole = false
-			}
-		}
-		fractional := false
-		for _, v := range origin.CPUMap {
-			if v%base != 0 {
-				fractional = true
-			}
-		}
-		// another NUMA node with enough fully free cores to host the workload (after the origin is put back)
-		numaAlt := false
-		if len(capacity.NUMA) > 0 {
-			free := map[string]int{}
-			for c, nid := range capacity.NUMA {
-				used := usage.CPUMap[c] - origin.CPUMap[c]
-				if used == 0 && capacity.CPUMap[c] >= base {
-					free[nid]++
+			capacity, usage, _ := w.read(node, nil)
+			whole := true
+			for _, v := range capacity.CPUMap {
+				if v != base {
+					whole = false
 				}
 			}
-			for nid, n := range free {
-				if nid != origin.NUMANode && n >= len(origin.CPUMap) && len(origin.CPUMap) > 0 {
-					numaAlt = true
+			fractional := false
+			for _, v := range origin.CPUMap {
+				if v%base != 0 {
+					fractional = true
 				}
 			}
-		}
-		newMem := origin.MemoryRequest + opts.Int64("memory-request")
-		numaMemTight := false
-		if origin.NUMANode != "" {
-			freeNUMA := capacity.NUMAMemory[origin.NUMANode] - usage.NUMAMemory[origin.NUMANode] + origin.NUMAMemory[origin.NUMANode]
-			numaMemTight = newMem > freeNUMA
-		}
+			// another NUMA node with enough fully free cores to host the workload (after the origin is put back)
+			numaAlt := false
+			if len(capacity.NUMA) > 0 {
+				free := map[string]int{}
+				for c, nid := range capacity.NUMA {
+					used := usage.CPUMap[c] - origin.CPUMap[c]
+					if used == 0 && capacity.CPUMap[c] >= base {
+						free[nid]++
+					}
+				}
+				for nid, n := range free {
+					if nid != origin.NUMANode && n >= len(origin.CPUMap) && len(origin.CPUMap) > 0 {
+						numaAlt = true
+					}
+				}
+			}
+			newMem := origin.MemoryRequest + opts.Int64("memory-request")
+			numaMemTight := false
+			if origin.NUMANode != "" {
+				freeNUMA := capacity.NUMAMemory[origin.NUMANode] - usage.NUMAMemory[origin.NUMANode] + origin.NUMAMemory[origin.NUMANode]
+				numaMemTight = newMem > freeNUMA
+			}
 
-		seen := map[string]bool{}
-		obs := []string{}
-		obsDesc := []any{}
-		granted := false
-		for k := 0; k < 8; k++ {
-			resp, err := w.pl.CalculateRealloc(w.ctx, node, live[pick].res[pluginName], opts)
-			s := "None"
-			var d any = errStr(err)
-			if err == nil {
-				nw, dl := &ctypes.WorkloadResource{}, &ctypes.WorkloadResource{}
-				if e := nw.Parse(resp.WorkloadResource); e != nil {
-					panic(e)
+			seen := map[string]bool{}
+			obs := []string{}
+			obsDesc := []any{}
+			granted := false
+			for k := 0; k < 8; k++ {
+				resp, err := w.pl.CalculateRealloc(w.ctx, node, live[pick].res[pluginName], opts)
+				checkInfra(err)
+				s := "None"
+				var d any = errStr(err)
+				if err == nil {
+					nw, dl := &ctypes.WorkloadResource{}, &ctypes.WorkloadResource{}
+					if e := nw.Parse(resp.WorkloadResource); e != nil {
+						panic(e)
+					}
+					if e := dl.Parse(resp.DeltaResource); e != nil {
+						panic(e)
+					}
+					s = vh.Some(vh.Pair(coqWR(nw), coqWR(dl)))
+					d = map[string]any{"new": nw, "delta": dl}
+					granted = true
 				}
-				if e := dl.Parse(resp.DeltaResource); e != nil {
-					panic(e)
+				if !seen[s] {
+					seen[s] = true
+					obs = append(obs, s)
+					obsDesc = append(obsDesc, d)
 				}
-				s = vh.Some(vh.Pair(coqWR(nw), coqWR(dl)))
-				d = map[string]any{"new": nw, "delta": dl}
-				granted = true
 			}
-			if !seen[s] {
-				seen[s] = true
-				obs = append(obs, s)
-				obsDesc = append(obsDesc, d)
+			info := fmt.Sprintf("(mkNI %s %s)", coqNR(capacity), coqNR(usage))
+			term := fmt.Sprintf("(mkRCase %s %s %s %s %s %s %s)", vh.Z(int64(base)), vh.Z(-1), vh.Bool(whole), info, coqWR(origin), coqReq(parseReq(opts)), vh.List(obs))
+			inScope := whole && reqKind == "keep-samecpu" && len(origin.CPUMap) > 0
+			r.Count("kind=" + kind)
+			r.Count("node=" + spec.describe)
+			r.Count("request=" + reqKind)
+			r.Count(fmt.Sprintf("in_scope=%v", inScope))
+			r.Count(fmt.Sprintf("distinct_answers=%d", len(obs)))
+			r.Count(fmt.Sprintf("granted=%v", granted))
+			if inScope {
+				r.Count(fmt.Sprintf("scope:numa=%v,fractional=%v", len(capacity.NUMA) > 0, fractional))
 			}
-		}
-		info := fmt.Sprintf("(mkNI %s %s)", coqNR(capacity), coqNR(usage))
-		term := fmt.Sprintf("(mkRCase %s %s %s %s %s %s %s)", vh.Z(int64(base)), vh.Z(-1), vh.Bool(whole), info, coqWR(origin), coqReq(parseReq(opts)), vh.List(obs))
-		inScope := whole && reqKind == "keep-samecpu" && len(origin.CPUMap) > 0
-		r.Count("kind=" + kind)
-		r.Count("node=" + spec.describe)
-		r.Count("request=" + reqKind)
-		r.Count(fmt.Sprintf("in_scope=%v", inScope))
-		r.Count(fmt.Sprintf("distinct_answers=%d", len(obs)))
-		r.Count(fmt.Sprintf("granted=%v", granted))
-		if inScope {
-			r.Count(fmt.Sprintf("scope:numa=%v,fractional=%v", len(capacity.NUMA) > 0, fractional))
-		}
-		r.Add(term, map[string]any{"node": spec, "capacity": capacity, "usage": usage, "origin": origin, "request": opts, "answers": obsDesc},
-			map[string]any{"kind": kind, "numa": len(capacity.NUMA) > 0, "numa_alt": numaAlt, "numa_mem_tight": numaMemTight, "fractional": fractional, "in_scope": inScope},
-			inScope && granted)
+			r.Add(term, map[string]any{"node": spec, "capacity": capacity, "usage": usage, "origin": origin, "request": opts, "answers": obsDesc},
+				map[string]any{"kind": kind, "numa": len(capacity.NUMA) > 0, "numa_alt": numaAlt, "numa_mem_tight": numaMemTight, "fractional": fractional, "in_scope": inScope},
+				inScope && granted)
+		})
 	}
 
 	bind := func(cpu float64, mem int64) resourcetypes.RawParams {
@@ -189,12 +192,12 @@ func TestC33(t *testing.T) {
 	// corpus: the theorem's case; the two refutation witnesses
 	emit("corpus", plain, &script{[]resourcetypes.RawParams{bind(1, 100), bind(2, 100)}, []int{1, 1}, 1, keep(50)})
 	emit("corpus", plain, &script{[]resourcetypes.RawParams{bind(2, 0)}, []int{2}, 1, keep(0)})
-	emit("corpus", numa2, &script{[]resourcetypes.RawParams{bind(1, 100)}, []int{1}, 0, keep(0)})                // NUMA: another node can host it
+	emit("corpus", numa2, &script{[]resourcetypes.RawParams{bind(1, 100)}, []int{1}, 0, keep(0)})                   // NUMA: another node can host it
 	emit("corpus", numa2, &script{[]resourcetypes.RawParams{bind(1, 100), bind(1, 100)}, []int{1, 1}, 1, keep(50)}) // NUMA, both nodes in use
 	emit("corpus", plain, &script{[]resourcetypes.RawParams{bind(1.5, 0)}, []int{1}, 0, keep(0)})                   // fractional
 	emit("corpus", plain, &script{[]resourcetypes.RawParams{bind(0.5, 0), bind(1.5, 0)}, []int{1, 1}, 1, keep(0)})  // fractional, shared core
 
-	n := r.N(150, 3000)
+	n := r.N(150, 1500)
 	for i := 0; i < n; i++ {
 		emit("random", g.nodeSpec(100, g.chance(0.8)), nil)
 	}
